@@ -11,6 +11,11 @@ if len(sys.argv) > 1 and os.path.exists(sys.argv[1]):
             matrix[f[0]] = f[1:]
 # detections observed while running tools/mutant.sh by hand (owning check, quick tier, seed 1)
 manual = {}
+# detections that need another flavour / a later generator than the matrix run used
+extra = {
+    "C17-m2": ["C17 (asan flavour only: heap-use-after-free report; the dbg differential does not see it)"],
+    "C09-rev-f5e47e1": ["C09 (after the escaped-script / end-tag-name soup fragments were added; missed by the generator before that)"],
+}
 rows = []
 for d in sorted(os.listdir(os.path.join(V, "seeded"))):
     p = os.path.join(V, "seeded", d)
@@ -28,13 +33,16 @@ for d in sorted(os.listdir(os.path.join(V, "seeded"))):
     if m:
         needs = (m.group(1) + m.group(2)).strip().replace("\n", " ")[:600]
     detected = matrix.get(d, manual.get(d, [prop]))
+    if d in extra and not any(x.startswith(prop) for x in detected):
+        detected = detected + extra[d]
+    rev = "-rev-" in d
     meta = {
         "breaks_property": prop,
-        "source": "written by an independent sub-agent given only the property text and a scratch worktree" if not d.endswith("-rev") else "reversion of one of my own fix: commits",
+        "source": "written by an independent sub-agent given only the property text and a scratch worktree" if "-rev-" not in d else "reversion of one of my own fix: commits",
         "files_changed": files,
         "what": what,
         "needs_to_manifest": needs,
-        "verified": "tools/confirm_mutant.sh: demo passes on the unmodified worktree; with the patch it builds (also with --features _integration_test,_verif_hooks), `cargo test --offline` still reports 182 passed / 0 failed, and the demo fails",
+        "verified": "reverse patch of the fix commit applies to HEAD, builds, and `cargo test --offline` still reports 182 passed / 0 failed (the defect predates the pinned suite)" if rev else "tools/confirm_mutant.sh: demo passes on the unmodified worktree; with the patch it builds (also with --features _integration_test,_verif_hooks), `cargo test --offline` still reports 182 passed / 0 failed, and the demo fails",
         "ran_against_checks": "tools/mutant.sh <patch> " + prop + " (quick tier, seed 1) and tools/matrix.sh (dbg flavour, all checks)",
         "detected_by": detected,
     }
